@@ -12,6 +12,11 @@
 // See the License for the specific language governing permissions and
 // limitations under the License.
 
+#[cfg(kani)]
+use crate::verif_shim::HashMap;
+#[cfg(kani)]
+use std::collections::VecDeque;
+#[cfg(not(kani))]
 use std::collections::{HashMap, VecDeque};
 use std::hash::Hash;
 
@@ -150,3 +155,7 @@ where
         MapOperation::Clear => Some(MapOperation::Clear),
     }
 }
+
+#[cfg(kani)]
+#[path = "/verif/kani/swimos_agent/event_queue.rs"]
+pub(crate) mod verif_kani;
